@@ -21,8 +21,8 @@ var exits = []string{"break", "continue", "return", "return-null", "throw-caught
 
 // ---- small AST helpers
 
-func sl(v string) hs.Expr  { return hs.StrLit{V: v} }
-func il(v int64) hs.Expr   { return hs.IntLit{V: v} }
+func sl(v string) hs.Expr            { return hs.StrLit{V: v} }
+func il(v int64) hs.Expr             { return hs.IntLit{V: v} }
 func id(n string, t hs.Type) hs.Expr { return hs.Ident{Name: n, T: t} }
 func say(args ...hs.Expr) hs.Stmt {
 	return hs.ExprStmt{X: hs.Call{Fn: hs.Ident{Name: "println"}, Args: args, T: hs.TNull}}
@@ -47,8 +47,8 @@ func lt(n string, k int64) hs.Expr {
 }
 
 type builder struct {
-	fns    []hs.FnDef
-	n      int
+	fns     []hs.FnDef
+	n       int
 	retNull bool // functions return null instead of int
 }
 
@@ -120,7 +120,10 @@ func (b *builder) wrap(ctx string, level int, inner []hs.Stmt) []hs.Stmt {
 		e := b.fresh("e")
 		tr := &hs.Try{Body: blk(say(sl("enter "+tag)), hs.ExprStmt{X: hs.Call{Fn: hs.Ident{Name: "throw"}, Args: []hs.Expr{sl("to-catch " + tag)}, T: hs.TNever}}),
 			CatchVar: e, T: hs.TNull,
-			Catch: blk(append([]hs.Stmt{say(sl("handler "+tag), hs.Member{X: id(e, errT), Name: "message", T: hs.TStr})}, body...)...)}
+			// the caught value is read again after the inner construct: a handler that fires inside this handler
+			// has its own exception value
+			Catch: blk(append(append([]hs.Stmt{say(sl("handler "+tag), hs.Member{X: id(e, errT), Name: "message", T: hs.TStr})}, body...),
+				say(sl("handler-end "+tag), hs.Member{X: id(e, errT), Name: "message", T: hs.TStr}))...)}
 		return []hs.Stmt{hs.ExprStmt{X: tr}, say(sl("left " + tag))}
 	case "fn":
 		name := b.fresh("f")
